@@ -130,7 +130,7 @@ type evt struct {
 type sink struct {
 	mu   sync.Mutex
 	evts []*evt
-	wg   sync.WaitGroup
+	pend int // handler goroutines still reading their copy of a stream payload
 	curU int
 }
 
@@ -182,9 +182,15 @@ func (r *recH) consume(e *evt, recv func() (any, error), closeFn func()) {
 		closeFn()
 		return
 	}
-	r.s.wg.Add(1)
+	r.s.mu.Lock()
+	r.s.pend++
+	r.s.mu.Unlock()
 	go func() {
-		defer r.s.wg.Done()
+		defer func() {
+			r.s.mu.Lock()
+			r.s.pend--
+			r.s.mu.Unlock()
+		}()
 		defer closeFn()
 		var chunks []any
 		for {
@@ -420,14 +426,21 @@ func watchdog(d time.Duration, f func()) (class string, detail string) {
 	}
 }
 
-func waitWG(wg *sync.WaitGroup, d time.Duration) bool {
-	ch := make(chan struct{})
-	go func() { wg.Wait(); close(ch) }()
-	select {
-	case <-ch:
-		return true
-	case <-time.After(d):
-		return false
+// waitPending waits until no handler goroutine is reading a stream copy any more (handlers may
+// still be invoked while this waits: an eager run leaves running tasks behind).
+func waitPending(s *sink, d time.Duration) bool {
+	deadline := time.Now().Add(d)
+	for {
+		s.mu.Lock()
+		n := s.pend
+		s.mu.Unlock()
+		if n == 0 {
+			return true
+		}
+		if time.Now().After(deadline) {
+			return false
+		}
+		time.Sleep(200 * time.Microsecond)
 	}
 }
 
